@@ -98,6 +98,7 @@ J_DepartureNotAfterLatest == Judge("DepartureNotAfterLatest", DepartureNotAfterL
 J_ShiftEnd == Judge("ShiftEnd", ShiftEnd(R))
 J_Capacity == Judge("Capacity", Capacity(R))
 J_Skills == Judge("Skills", Skills(R))
+J_RechargeDistance == Judge("RechargeDistance", RechargeDistance(R))
 J_LimitDistance == Judge("LimitDistance", LimitDistance(R))
 J_LimitDuration == Judge("LimitDuration", LimitDuration(R))
 J_LimitTourSize == Judge("LimitTourSize", LimitTourSize(R))
